@@ -2,7 +2,7 @@
    Statements only. *)
 From Coq Require Import List String NArith Bool.
 From AM Require Import Rust.Ast Rust.Eval Gen.Error Gen.Asset Gen.Key Ref.Load Proofs.Load
-  Tie.Error Tie.LoadFromSource.
+  Tie.Error Tie.LoadFromSource Gen.Flags Tie.Dirs.
 Import ListNotations.
 Open Scope N_scope.
 
@@ -54,3 +54,8 @@ Theorem C03_empty_extension_list_goes_to_default :
   forall (V : Type) read (decode : list N -> string -> sum N V) default,
   load_from_source read decode default [] = default ENoDefault.
 Proof. intros V. exact (@empty_extension_list V). Qed.
+
+(* the extension list of a type that only gives EXTENSION is exactly that one extension, the empty
+   one (files without extension) included *)
+Theorem C03_code_default_extension_list : defaults_wf = true.
+Proof. exact trait_defaults. Qed.
